@@ -1,7 +1,7 @@
 """C05 accessor rules beyond the walker discipline: R05.4 re-wrap, R05.5 index meaning, R05.6 name lookup,
 R05.7 type names, R05.8 container-descend guard."""
 from sym import Explorer, explore, show, lin, lin_sub, subterms
-from pat import called, canon, is_call, deref_all, strip_casts, agg_variant, const_of, unwrap_ok
+from pat import called, canon, is_call, deref_all, strip_casts, agg_variant, const_of, unwrap_ok, local_tail
 from mir import natural_loops
 from pathfacts import PathFacts, IntervalSet, INF
 from rules.layout import cv
@@ -262,6 +262,14 @@ def r05_5(ctx, run, rule='R05.5'):
                     continue
                 n += 1
                 idx = idx_atoms[0]
+                t = e[5]
+                helper = [s_ for s_ in subterms(idx) if s_[0] == 'call' and local_tail(canon(s_[1])) is not None and not called(s_[1], 'Try::branch')]
+                if helper:
+                    # the position is the result of a helper that receives the key-path index (and the length): how it maps negative and
+                    # out-of-range indices is decided inside that helper, which this rule does not read
+                    run.undecided(rule, b.path, 'index[helper]', f'the element position is computed by {canon(helper[0][1]).split("::")[-1]}() from the key-path index: its case analysis is not read by this rule',
+                                  f"{t.get('file')}:{t.get('line')}")
+                    continue
                 others = {a: c for a, c in l[0].items() if a != idx}
                 pf = PathFacts(conds)
                 r = pf.range_of(idx)
@@ -461,6 +469,10 @@ def r05_9(ctx, run, rule='R05.9'):
                     if tt[0] == 'bin' and tt[1] in ('Eq', 'Ne') and ('type_code' in sh) and any(const_of(x) == STR for x in (tt[2], tt[3])):
                         if (tt[1] == 'Eq') == bool(c[2]):
                             ok = True
+                    # the element's kind was compared equal with the kind of the other operand's own entry: a comparison of two values of one
+                    # kind (containment, set membership), not a lookup of a name
+                    if tt[0] == 'bin' and tt[1] in ('Eq', 'Ne') and isinstance(c[2], bool) and 'type_code' in show(tt[2]) and 'type_code' in show(tt[3]) and (tt[1] == 'Eq') == c[2]:
+                        ok = True
                     # the element's whole entry word (kind and length) was compared equal with the other operand's entry
                     if tt[0] == 'call' and c[2] is True and canon(tt[1]).split('::')[-1] == 'eq' and 'JEntry' in tt[1]:
                         ok = True
